@@ -732,6 +732,66 @@ SEQOF_COMPONENTS_N.empty_list = _chunk_list
 CONTRACTS = CONTRACTS + [SEQOF_COMPONENTS_N]
 
 
+# ... with a wrap type (SET OF / SEQUENCE OF ANY holding typed inner values, C18): each element is wrapped or not on its own
+E_SAME = _z3.Function('element.isOfTheWrapType', _I, _z3.BoolSort())
+E_WRAP = _z3.Function('wrapped.encoding', _S, _S)
+E_ALL_W = _z3.RecFunction('encodings_of_elements_wrapped', _S, _I, _S)
+_z3.RecAddDefinition(E_ALL_W, [_rv, _ru], _z3.If(_ru <= 0, _z3.Empty(_S), _z3.Concat(
+    E_ALL_W(_rv, _ru - 1), _z3.If(E_SAME(_rv[_ru - 1]), E_CHUNK(_rv[_ru - 1]), E_WRAP(E_CHUNK(_rv[_ru - 1]))))))
+WRAP_TYPE = Obj('Any', {}, {'isSameTypeWith': lambda ex, self, component: E_SAME(toint(component.fields['__id__']))},
+                name='wrapType')
+
+
+class _ElementList(Obj):
+    pass
+
+
+def _collection_w(ex, env):
+    vals = env['elements']
+
+    def getitem(ex2, self, k):
+        if not ex2.choose(_z3.And(toint(k) >= 0, toint(k) < _z3.Length(vals.z)), 'index-in-range'):
+            raise _Raise(ExcV('IndexError'))
+        return Obj('Element', {'__id__': vals.z[toint(k)]}, name='element')
+    return Obj('SequenceOf', {'isInconsistent': False},
+               {'__iter__': lambda ex2, self: _Elements([vals.z], names=('__id__',)), '__getitem__': getitem,
+                '__len__': lambda ex2, self: _z3.Length(vals.z)}, name='value')
+
+
+def _encode_element_w(ex, component, asn1Spec=None, **options):
+    if isinstance(component, SeqV):
+        # the second call: the element's encoding wrapped into the container type
+        if not (isinstance(asn1Spec, Obj) and asn1Spec.uid == WRAP_TYPE.uid):
+            raise Unsupported('octets encoded under something else than the wrap type')
+        z = E_WRAP(component.z)
+    else:
+        z = E_CHUNK(toint(component.fields['__id__']))
+    ex.assume(inr(z))
+    return SeqV(z, 'bytes')
+
+
+SEQOF_COMPONENTS_W = Contract(
+    id='ber.encoder::SequenceOfEncoder._encodeComponents[value-object,any-size,wrap-type]', file=F,
+    qual='SequenceOfEncoder._encodeComponents', properties=['C18', 'C01'],
+    params=dict(self=PObj('SequenceOfEncoder'), elements=PIntTuple(), value=PDerived(_collection_w), asn1Spec=PConst(None),
+                encodeFun=PConst(FnV(_encode_element_w, 'encodeFun')), options=POptions(wrapType=PConst(WRAP_TYPE))),
+    globals={'all_of': FnV(lambda ex, vals, upto: SeqV(E_ALL_W(vals.z if isinstance(vals, SeqV) else vals.cols[0], toint(upto)), 'bytes'), 'all_of'),
+             'unfold': FnV(lambda ex, vals, i: (lambda z, k: _z3.Implies(k >= 0, E_ALL_W(z, k + 1) == _z3.Concat(
+                 E_ALL_W(z, k), _z3.If(E_SAME(z[k]), E_CHUNK(z[k]), E_WRAP(E_CHUNK(z[k]))))))(
+                 vals.z if isinstance(vals, SeqV) else vals.cols[0], toint(i)), 'unfold')},
+    loops={0: Loop(index='i', invariant=['chunks.joined == all_of(loop_seq, i)', 'chunks.count == i', 'X.inr(chunks.joined)'],
+                   havoc_fields=['chunks.joined', 'chunks.count'], hints=['unfold(loop_seq, i)'])},
+    requires=['options.get("wrapType", None) is not None'],
+    # C18: an element that is not of the field's own (ANY) type is wrapped into it, one that is (raw octets) is not -- decided
+    # for each element, a collection may mix the two
+    ensures=[('each-element-wrapped-iff-it-is-not-of-the-wrap-type',
+              'result.joined == all_of(elements, len(elements)) and result.count == len(elements)')],
+    calls={'encodeFun': _encode_element_w},
+    note='wrapType.isSameTypeWith and the two uses of encodeFun are assumed models')
+SEQOF_COMPONENTS_W.empty_list = _chunk_list
+CONTRACTS = CONTRACTS + [SEQOF_COMPONENTS_W]
+
+
 # ---- REAL, binary form in base 2 (X.690 8.5.7): first octet, two's complement exponent, unsigned mantissa ------------------------
 def _real_value(ex, env):
     m0, e0 = env['m0'], env['e0']
